@@ -180,7 +180,67 @@ pub fn reference_encode(arch: &str, start: u32, data: &[u8]) -> Result<Vec<u8>, 
     crate::codec::reference::run(dec, &comp, data.len() + 4096)
 }
 
+/// E8/E9 every 1..5 bytes, operands with 00/FF bytes: exercises every prev_mask / prev_pos value
+pub fn gen_x86_dense(r: &mut Rng, len: usize) -> Vec<u8> {
+    let mut buf = r.bytes(len);
+    let mut k = 0usize;
+    while k < len {
+        buf[k] = if r.chance(1, 2) { 0xE8 } else { 0xE9 };
+        for j in 1..5 {
+            if k + j < len && r.chance(2, 3) {
+                buf[k + j] = *r.pick(&[0u8, 0xFF, 0, 0xFF, 0xE8]);
+            }
+        }
+        k += r.range(1, 6) as usize;
+    }
+    buf
+}
+
+/// State-level correspondence: ONE `BCJFilter::code` call (hook) from an arbitrary state on buffers
+/// dense in the architecture's opcodes, against `Filters.code` of the model: processed count, new `pos`,
+/// new `prev_mask` (the x86 carry-over between calls) and the buffer must all agree.
+pub fn bcj_steps(rep: &mut Report, rng: &mut Rng, n: u64) {
+    for i in 0..n {
+        let mut r = rng.fork();
+        let ai = (i % 8) as usize;
+        let arch = ARCHS[ai];
+        let len = match r.below(4) {
+            0 => r.range(0, 12) as usize,
+            1 | 2 => r.range(5, 48) as usize,
+            _ => r.range(48, 600) as usize,
+        };
+        let mut buf = r.bytes(len);
+        if arch == "x86" {
+            buf = gen_x86_dense(&mut r, len);
+        } else if len >= 16 {
+            let dense = gen_arch_code(&mut r, arch, len);
+            buf = dense;
+        }
+        let enc = r.chance(1, 2);
+        let a = align_of(arch) as usize;
+        let pos = match r.below(4) {
+            0 => 0usize,
+            1 => (0xFFFF_FFF0usize / a) * a,
+            _ => ((r.next() as u32 as usize) / a) * a,
+        } + if arch == "x86" { 5 } else { 0 };
+        let pm = if arch == "x86" { r.below(8) as u32 } else { 0 };
+        let mut b = buf.clone();
+        rep.count(&format!("step.{arch}"));
+        match lzma_rust2::verif_hooks::bcj_code(ai as u8, enc, pos, pm, &mut b) {
+            Some((processed, pos2, pm2)) => {
+                rep.model(
+                    format!("bcj.step arch={arch} enc={} pos={pos} pm={pm} in={}", enc as u8, hex(&buf)),
+                    format!("ok {processed} {} {pm2} {}", pos2 as u64 % (1u64 << 32), fnv(&b)),
+                );
+            }
+            None => rep.fail("bcj-hook-missing", "verif hook rejected the architecture index", json!({"arch": arch})),
+        }
+        rep.case(format!("step:{arch}:{}:{}", enc, size_class(len)), true, || json!({"arch": arch, "enc": enc, "pos": pos, "prev_mask": pm, "buf_hex": hex(&buf)}));
+    }
+}
+
 pub fn run(rep: &mut Report, rng: &mut Rng, thorough: bool) {
+    bcj_steps(rep, rng, if thorough { 40000 } else { 4000 });
     let per = if thorough { 400 } else { 40 };
     for (ai, arch) in ARCHS.iter().enumerate() {
         for i in 0..per {
